@@ -285,6 +285,9 @@ impl Model {
         for d in ["env", "env.build", "env.launch"] {
             let dir = join(&l, d.as_bytes());
             for (k, n) in self.snap.beneath(&dir) {
+                if matches!(n, Node::Symlink { .. }) {
+                    return false;
+                }
                 if n.is_file() {
                     let name = k.rsplit(|c| *c == b'/').next().unwrap_or(k);
                     let ok = name
@@ -526,7 +529,7 @@ impl Model {
             Op::Implicit { layer, which, .. } => {
                 *which < 4 && self.live.contains(layer) && self.dir_is_real_dir(*layer)
             }
-            Op::SpecDir { layer, files } => {
+            Op::SpecDir { layer, files, links } => {
                 if !(self.live.contains(layer) && self.dir_is_real_dir(*layer)) {
                     return false;
                 }
@@ -535,7 +538,24 @@ impl Model {
                 for d in ["env", "env.build", "env.launch"] {
                     m.snap.remove_tree(&join(&l, d.as_bytes()));
                 }
-                m.files_ok(&l, files, false)
+                if !m.files_ok(&l, files, false) {
+                    return false;
+                }
+                for f in files {
+                    m.put_file(&l, f);
+                }
+                // every link sits in an existing env directory, on a free name, and resolves to
+                // a file or directory of this layer's env directories
+                links.iter().all(|k| {
+                    let full = join(&l, &k.path);
+                    m.can_place(&l, &k.path, false)
+                        && full.rsplitn(2, |c| *c == b'/').nth(1).is_some_and(|parent| m.snap.get(parent).is_some_and(Node::is_dir))
+                        && {
+                            let mut t = m.clone();
+                            t.snap.insert(full.clone(), Node::Symlink { target: k.target.clone() });
+                            t.snap.resolve(&full, &t.root_abs).is_some_and(|r| r.starts_with(&join(&l, b"env")))
+                        }
+                })
             }
             Op::TopSymlink { layer, .. } => {
                 // only for a layer that exists with its metadata file (so that requests reach
@@ -738,13 +758,16 @@ impl Model {
                 }
                 Expectation::simple(ExpResult::NoCall)
             }
-            Op::SpecDir { layer, files } => {
+            Op::SpecDir { layer, files, links } => {
                 let l = self.ldir(*layer);
                 for d in ["env", "env.build", "env.launch"] {
                     self.snap.remove_tree(&join(&l, d.as_bytes()));
                 }
                 for f in files {
                     self.put_file(&l, f);
+                }
+                for k in links {
+                    self.snap.insert(join(&l, &k.path), Node::Symlink { target: k.target.clone() });
                 }
                 Expectation::simple(ExpResult::NoCall)
             }
